@@ -14,18 +14,42 @@ change to the C text changes the generated term and the proof obligation is re-c
 C semantics implemented here (the trusted part of the translator):
   * all integers are Lean `Int`; results of + - * << on `unsigned int` are reduced mod 2^32,
     on 64-bit unsigned types mod 2^64 (`CSem.u32/u64`); signed arithmetic is assumed not to
-    overflow (UB in C); casts to unsigned types reduce, casts to `int` wrap (`CSem.i32`);
+    overflow (UB in C); casts to unsigned types reduce, casts to `int` wrap (`CSem.i32`), casts to
+    `signed char`/`char` and `unsigned char` wrap to 8 bits (`CSem.i8/u8`); `short` is unsupported;
   * comparisons / && / || / ! give Bool; `(e)` used as condition means `e != 0`;
-  * pointers are opaque Ints, `NULL` = 0, only compared against NULL/each other;
+  * pointers are opaque Ints, `NULL` = 0, only compared against NULL/each other; pointer casts are
+    transparent; `*p` (one level, e.g. `*size`) is a cell of its own named `p_deref`, distinct from
+    `p`; `*f()` is the input `deref_call_f` (`errno` = `*__errno_location()`);
   * `x & ENUM`, `x |= ENUM`, `x &= ~ENUM`, `x ^= ENUM` where ENUM is an enum constant are
     translated bit-wise: each (variable, constant) pair is one Bool; a `_Static_assert` compile
     checks that every constant used this way is a single bit and that constants used on the same
     variable are distinct;
+  * any other `a & b` is `CSem.land` = bitwise and of the 64-bit two's-complement patterns; for
+    `int` operands the low 32 bits of that are read back as a signed value (`CSem.i32`), i.e. the
+    and of the 32-bit patterns (the `WIFEXITED`… macros of <sys/wait.h>); `~x` on an unsigned word
+    is `2^w-1 - x`;
+  * `a >> n`, `a << n` with an integer literal `0 <= n < 32`: `CSem.shr` = floor division by 2^n
+    (logical for non-negative values, arithmetic for negative `int`s as gcc/clang implement it),
+    `CSem.shl` = multiplication by 2^n, reduced like `*` for unsigned types;
   * a call inside an expression is an uninterpreted input `call_<callee>` (`uv__queue_empty(&l->q)`
-    becomes the Bool input `q_empty`); calls as statements are not allowed in a kernel;
+    becomes the Bool input `q_empty`); its arguments are not translated; two call sites of the same
+    callee in one kernel are refused (they would share the input); calls as statements are not
+    allowed in a kernel, except `abort()`/`__assert_fail` (the kernel's result is `none`) and the
+    callees a kernel lists in `drop_calls` (data movement such as `memcpy` that a *decision*
+    kernel leaves out); element stores `a[i] = e` are allowed only into the arrays a kernel lists
+    in `drop_stores`, and are likewise left out;
   * `do { … } while (0)` with `break`, `if/else`, `?:`, `return`, assignment, compound
-    assignment, `++/--`, local declarations.  Anything else aborts the generation with
-    "unsupported construct" (reported by the checks as a broken Tie-A obligation).
+    assignment, `++/--`, local declarations.  Anything else (loops, `switch`, `goto`, …) aborts
+    the generation of that kernel with "unsupported construct" (reported by the checks as a broken
+    Tie-A obligation).
+
+Which statements form a kernel: the whole body; or `slice=[vars]`: the statements, at any depth,
+that assign only to the listed variables; or `after=var`: the top-level statements following the
+single top-level statement that writes `var` (the tail of a function after a library call or a
+retry loop; `var` becomes an input; more than one writer is refused).
+
+Kernels carry a `group` ("core" = proved in UvModel/GenEq.lean, "C20" = UvModel/GenEq/C20.lean, …);
+see `main` for how a failing kernel is confined to its group.
 """
 import json, os, re, subprocess, sys, tempfile, hashlib
 from pathlib import Path
@@ -58,10 +82,39 @@ KERNELS = [
     dict(name="timer_due_in", file="src/timer.c", func="uv_timer_get_due_in"),
     dict(name="next_timeout", file="src/timer.c", func="uv__next_timeout"),
     dict(name="timer_less_than", file="src/timer.c", func="timer_less_than"),
-    dict(name="thread_stack_size", file="src/unix/thread.c", func="uv_thread_create_ex",
+    dict(name="thread_stack_size", group="C20", file="src/unix/thread.c", func="uv_thread_create_ex",
          slice=["stack_size", "pagesize", "min_stack_size"]),
-    dict(name="cond_deadline", file="src/unix/thread.c", func="uv_cond_timedwait",
+    dict(name="cond_deadline", group="C20", file="src/unix/thread.c", func="uv_cond_timedwait",
          slice=["timeout", "now", "ts_tv_sec", "ts_tv_nsec"]),
+    # C20 return-code tables
+    dict(name="mutex_trylock", group="C20", file="src/unix/thread.c", func="uv_mutex_trylock"),
+    dict(name="rwlock_tryrdlock", group="C20", file="src/unix/thread.c", func="uv_rwlock_tryrdlock"),
+    dict(name="rwlock_trywrlock", group="C20", file="src/unix/thread.c", func="uv_rwlock_trywrlock"),
+    dict(name="sem_trywait_final", group="C20", file="src/unix/thread.c", func="uv__sem_trywait", after="r"),
+    dict(name="cond_timedwait_result", group="C20", file="src/unix/thread.c", func="uv_cond_timedwait", after="r"),
+    dict(name="barrier_wait", group="C20", file="src/thread-common.c", func="uv_barrier_wait"),
+    dict(name="mutex_lock", group="C20", file="src/unix/thread.c", func="uv_mutex_lock"),
+    dict(name="mutex_unlock", group="C20", file="src/unix/thread.c", func="uv_mutex_unlock"),
+    dict(name="cond_wait", group="C20", file="src/unix/thread.c", func="uv_cond_wait"),
+    # C12 wait-status decode
+    dict(name="wait_decode", group="C12", file="src/unix/process.c", func="uv__wait_children",
+         slice=["exit_status", "term_signal"]),
+    # C19 size/decision part of the string getters (the copies themselves are dropped)
+    dict(name="os_getenv", group="C19", file="src/unix/core.c", func="uv_os_getenv", drop_calls=["memcpy"]),
+    dict(name="os_gethostname", group="C19", file="src/unix/core.c", func="uv_os_gethostname",
+         drop_calls=["memcpy"], drop_stores=["buf"]),
+    dict(name="fs_event_getpath", group="C19", file="src/uv-common.c", func="uv_fs_event_getpath",
+         drop_calls=["memcpy"], drop_stores=["buffer"]),
+    dict(name="fs_poll_getpath", group="C19", file="src/fs-poll.c", func="uv_fs_poll_getpath",
+         drop_calls=["memcpy"], drop_stores=["buffer"]),
+    dict(name="if_indextoname", group="C19", file="src/unix/getaddrinfo.c", func="uv_if_indextoname",
+         drop_calls=["memcpy"], drop_stores=["buffer"]),
+    dict(name="get_process_title", group="C19", file="src/unix/proctitle.c", func="uv_get_process_title",
+         drop_calls=["memcpy", "uv_once", "uv_mutex_lock", "uv_mutex_unlock"], drop_stores=["buffer"]),
+    dict(name="pipe_getname_size", group="C19", file="src/unix/pipe.c", func="uv__pipe_getsockpeername",
+         slice=["size_deref"]),
+    # C07 entry check of uv_write2 / uv_try_write2
+    dict(name="check_before_write", group="C07", file="src/unix/stream.c", func="uv__check_before_write"),
 ]
 
 U32 = {"unsigned int", "unsigned", "uint32_t"}
@@ -127,14 +180,16 @@ def kind_of(q):
 
 def strip(n):
     while n.get("kind") in ("ParenExpr", "ImplicitCastExpr", "ConstantExpr") or \
-            (n.get("kind") == "CStyleCastExpr" and n.get("castKind") in ("NoOp", "LValueToRValue")):
+            (n.get("kind") == "CStyleCastExpr" and n.get("castKind") in ("NoOp", "LValueToRValue", "BitCast")):
         n = n["inner"][0]
     return n
 
 
 class Tr:
-    def __init__(self, name):
+    def __init__(self, name, drop_calls=(), drop_stores=()):
         self.name = name
+        self.drop_calls = set(drop_calls)     # data-movement calls left out of a decision kernel
+        self.drop_stores = set(drop_stores)   # arrays whose element stores are left out
         self.inputs = {}       # lean name -> "Int" | "Bool"
         self.counter = {}
         self.enum_uses = {}    # var -> set(enum names)
@@ -142,6 +197,7 @@ class Tr:
         self.locals = set()
         self.written = []      # ordered list of variables ever written
         self.wtypes = {}
+        self.call_sites = {}   # callee -> ids of the call expressions read as `call_<callee>`
 
     # ------------------------------------------------------------ names
     def lv_name(self, n):
@@ -152,8 +208,14 @@ class Tr:
         if k == "MemberExpr":
             base = self.lv_name(n["inner"][0])
             return f"{base}_{n['name']}"
-        if k == "UnaryOperator" and n.get("opcode") in ("*", "&"):
+        if k == "UnaryOperator" and n.get("opcode") == "&":
             return self.lv_name(n["inner"][0])
+        if k == "UnaryOperator" and n.get("opcode") == "*":
+            inner = strip(n["inner"][0])
+            if inner.get("kind") == "CallExpr":      # errno = *__errno_location()
+                fn = strip(inner["inner"][0]).get("referencedDecl", {}).get("name", "?")
+                return "deref_call_" + fn
+            return self.lv_name(inner) + "_deref"
         raise Unsupported(f"lvalue {k} at {loc(n)}")
 
     def read(self, env, name, ty="Int"):
@@ -224,7 +286,14 @@ class Tr:
                 return "0", "int"
             if ck in ("IntegralCast", "IntegralToBoolean", "PointerToIntegral", "IntegralToPointer"):
                 e = self.as_int(inner, env)
-                tk = kind_of(ctype(n))
+                q = ctype(n)
+                if q in ("signed char", "char"):
+                    return f"(CSem.i8 {e})", "int"
+                if q == "unsigned char":
+                    return f"(CSem.u8 {e})", "int"
+                if q in ("short", "unsigned short"):
+                    raise Unsupported(f"cast to {q} at {loc(n)}")
+                tk = kind_of(q)
                 if tk == "u32":
                     return f"(CSem.u32 {e})", "int"
                 if tk == "u64":
@@ -271,6 +340,8 @@ class Tr:
                 return f"(-{e} - 1)", "int"
             if op == "&":   # address-of: opaque identity of the object
                 return self.read(env, "addr_" + self.lv_name(n["inner"][0])), "int"
+            if op == "*":   # one-level dereference: the pointee is a cell of its own (`*size`, errno)
+                return self.read(env, self.lv_name(n)), "int"
             raise Unsupported(f"unary {op} at {loc(n)}")
         if k == "BinaryOperator":
             op = n["opcode"]
@@ -295,8 +366,26 @@ class Tr:
                 ft = self.flag_test(n, env)
                 if ft is not None:
                     return ft, "bool"   # only its truth value is meaningful; users go through as_bool/as_int
-                # x & ~(m - 1) style alignment arithmetic: keep as Nat bit operation on non-negative values
-                return f"(CSem.land {self.as_int(a, env)} {self.as_int(b, env)})", "int"
+                # x & mask arithmetic: bitwise and of the 64-bit two's-complement patterns; for `int`
+                # operands the low 32 bits are read back as a signed value
+                tk = kind_of(ctype(n))
+                e = f"(CSem.land {self.as_int(a, env)} {self.as_int(b, env)})"
+                if tk in ("u32", "u64"):
+                    return e, "int"
+                if tk == "i32":
+                    return f"(CSem.i32 {e})", "int"
+                raise Unsupported(f"& on {ctype(n)} at {loc(n)}")
+            if op in (">>", "<<"):
+                sb = strip(b)
+                if sb.get("kind") != "IntegerLiteral" or not (0 <= int(sb["value"]) < 32):
+                    raise Unsupported(f"{op} by a non-literal amount at {loc(n)}")
+                tk = kind_of(ctype(n))
+                if tk not in ("u32", "u64", "i32", "i64"):
+                    raise Unsupported(f"{op} on {ctype(n)} at {loc(n)}")
+                sh = int(sb["value"])
+                if op == ">>":   # arithmetic shift for signed operands (gcc/clang), logical for unsigned
+                    return f"(CSem.shr {self.as_int(a, env)} {sh})", "int"
+                return self.wrap(f"(CSem.shl {self.as_int(a, env)} {sh})", tk), "int"
             if op == ",":
                 raise Unsupported(f"comma at {loc(n)}")
             raise Unsupported(f"binary {op} at {loc(n)}")
@@ -321,6 +410,9 @@ class Tr:
                     return self.read(env, self.lv_name(a["inner"][0]) + "_empty", "Bool"), "bool"
             if fn == "__builtin_expect":
                 return self.expr(args[0], env)
+            self.call_sites.setdefault(fn, set()).add(n.get("id"))
+            if len(self.call_sites[fn]) > 1:
+                raise Unsupported(f"two call sites of {fn} in one kernel at {loc(n)}")
             return self.read(env, "call_" + fn), "int"
         if k == "UnaryOperator" and n.get("opcode") == "~":
             pass
@@ -390,6 +482,15 @@ class Tr:
             return k(env)
         if kd == "BinaryOperator" and n.get("opcode") == "=":
             lhs, rhs = n["inner"]
+            sl = strip(lhs)
+            if sl.get("kind") == "ArraySubscriptExpr":
+                try:
+                    arr = self.lv_name(sl["inner"][0])
+                except Unsupported:
+                    arr = None
+                if arr in self.drop_stores:
+                    return k(env)
+                raise Unsupported(f"array store at {loc(n)}")
             name = self.lv_name(lhs)
             es = self.enum_set(rhs)
             if es is not None:
@@ -447,6 +548,8 @@ class Tr:
             if fn in ("__assert_fail", "abort"):
                 # reaching it is outside the kernel's domain: result is the distinguished `none`
                 return "none"
+            if fn in self.drop_calls:
+                return k(env)
             raise Unsupported(f"call statement {fn} at {loc(n)}")
         if kd == "ConditionalOperator":
             # assert(): (cond) ? (void)0 : __assert_fail(...)
@@ -508,7 +611,7 @@ def indent(s):
 
 
 def gen_kernel(k, tmpdir):
-    tr = Tr(k["name"])
+    tr = Tr(k["name"], k.get("drop_calls", ()), k.get("drop_stores", ()))
     if "wrapper" in k:
         src = Path(tmpdir) / f"w_{k['name']}.c"
         src.write_text(WRAP + k["wrapper"] + "\n")
@@ -516,9 +619,18 @@ def gen_kernel(k, tmpdir):
         origin = k["wrapper"]
     else:
         fd = ast_of(str(REPO / k["file"]), k["func"])
-        origin = f"{k['file']}:{k['func']}" + (f" slice {k['slice']}" if "slice" in k else "")
+        origin = f"{k['file']}:{k['func']}" + (f" slice {k['slice']}" if "slice" in k else "") + \
+                 (f" after the write of {k['after']}" if "after" in k else "")
     body = next(c for c in fd["inner"] if c.get("kind") == "CompoundStmt")
     stmts = tr.slice(body, k["slice"]) if "slice" in k else body.get("inner", [])
+    if "after" in k:
+        # tail of the function: the top-level statements following the one top-level statement that
+        # writes the named variable (which thereby becomes an input of the kernel)
+        idx = [i for i, st in enumerate(stmts) if k["after"] in tr.writes(st, set())]
+        if len(idx) != 1 or idx[0] + 1 >= len(stmts):
+            raise Unsupported(f"after={k['after']} of {k['name']}: expected exactly one top-level "
+                              f"statement writing it, followed by a tail; found {len(idx)}")
+        stmts = stmts[idx[0] + 1:]
     has_ret = [False]
     # placeholder continuation results: filled after we know the written set -> two passes
     def run(outs):
@@ -585,7 +697,21 @@ def enum_check(enum_uses, tmpdir, extra=()):
 
 
 def main():
+    """`gen_lean.py [--need g1,g2,…]`: a kernel whose C can no longer be translated aborts with
+    "unsupported construct" (exit 1).  With --need, only the kernels of the named groups (`group=`
+    in KERNELS, default "core" = the kernels UvModel/GenEq.lean is about; "C20" etc. = those of
+    UvModel/GenEq/C20.lean) are fatal: the others are replaced by a comment in the generated file,
+    so that just their own GenEq module stops building and one property's untranslatable kernel
+    does not take the other properties' ties down with it."""
+    need = None
+    if "--need" in sys.argv:
+        need = set(sys.argv[sys.argv.index("--need") + 1].split(","))
+        unknown = need - {k.get("group", "core") for k in KERNELS}
+        if unknown:
+            print(f"gen_lean: unknown kernel groups {sorted(unknown)}")
+            return 1
     parts, all_enums, all_vals = [], {}, set()
+    rc = 0
     with tempfile.TemporaryDirectory(prefix="uvgen-", dir="/var/tmp") as td:
         for k in KERNELS:
             try:
@@ -593,7 +719,11 @@ def main():
                 all_vals |= ev
             except Unsupported as e:
                 print(f"gen_lean: kernel {k['name']}: unsupported construct: {e}")
-                return 1
+                if need is None or k.get("group", "core") in need:
+                    rc = 1
+                parts.append(f"/- kernel {k['name']}: NOT GENERATED, unsupported construct: "
+                             f"{str(e).replace('-/', '- /')} -/\n")
+                continue
             parts.append(txt)
             for v, s in eu.items():
                 all_enums.setdefault(k["name"] + ":" + v, set()).update(s)
@@ -613,7 +743,7 @@ def main():
         print("gen_lean: wrote", OUT)
     else:
         print("gen_lean: unchanged")
-    return 0
+    return rc
 
 
 if __name__ == "__main__":
